@@ -273,6 +273,7 @@ def alternatives(spec, default):
         add("too_long", [1.0, 2.0, 3.0])
         add("zero_element", [0.0, 1.0])
         add("negative_element", [1.0, -1.0])
+        add("nan_element", [float("nan"), 1.0])
         add("wrong_element", [1.0, "x"])
         add("empty", [])
         add("scalar", 1.4)
